@@ -568,6 +568,10 @@ func c08DecoderFor(c *Ctx) {
 }
 
 func c08DecoderFiles(c *Ctx) {
+	withInline(func() { c08DecoderFilesIn(c) }, c.P.Func("", "decoder"))
+}
+
+func c08DecoderFilesIn(c *Ctx) {
 	const rule = "decoder(files): every file either yields an error return or appends exactly one auto-detected decoder and one closer; a nil decoder from DecoderFor takes the error path; the round-robin gets exactly the collected decoders"
 	fn := c.P.Func("", "decoder")
 	key := "one-decoder-per-file:main.decoder"
@@ -576,13 +580,13 @@ func c08DecoderFiles(c *Ctx) {
 		return
 	}
 	c.Saw("function " + shortFn(fn))
-	dfs := callsNamed(fn, "lib.DecoderFor")
+	dfs := callsNamedI(fn, "lib.DecoderFor")
 	if len(dfs) != 1 {
 		c.Fail(key, rule, fmt.Sprintf("%d DecoderFor calls", len(dfs)), c.fnAt(fn))
 		return
 	}
 	df := dfs[0].(*ssa.Call)
-	header := loopHeaderOf(df.Block())
+	header := loopHeaderOf(liftBlock(df.Block(), fn))
 	if header == nil {
 		c.Fail(key, rule, "DecoderFor is not called in the loop over files", c.at(df))
 		return
@@ -628,13 +632,13 @@ func c08DecoderFiles(c *Ctx) {
 	nApp := 0
 	eachInstr(fn, func(i ssa.Instruction) {
 		if call, ok := i.(*ssa.Call); ok && callName(&call.Call) == "builtin:append" {
-			if el, ok := sliceElems(call.Call.Args[1]); ok && len(el) == 1 && el[0] == ssa.Value(df) {
+			if el, ok := sliceElems(call.Call.Args[1]); ok && len(el) == 1 && (el[0] == ssa.Value(df) || flowsFrom(el[0], func(v ssa.Value) bool { return v == ssa.Value(df) })) {
 				appendDec = call
 				nApp++
 			}
 		}
 	})
-	if nApp != 1 || !edgeDominates(nilIf.Block(), indexOfSucc(nilIf.Block(), okSucc), appendDec.Block()) {
+	if nApp != 1 || setNil[ssa.Instruction(appendDec)] || !exploreBlock(okSucc, nil)[ssa.Instruction(appendDec)] {
 		c.Fail(key, rule, "the detected decoder is not appended exactly once on the success edge", c.at(df))
 		return
 	}
